@@ -51,7 +51,7 @@ SPEC_BUILTINS = {
     "suffixof", "contains", "strlen", "int_str", "str_to_int", "truthy", "py_eq", "py_str",
     "clsid", "clsof", "isinst", "uf", "exact_class", "qn_str", "qn_uri", "map_dom_eq",
     "const_set", "const_map_keys", "table_get", "table_has", "field_array", "is_other",
-    "seq_len", "seq_nth", "seq_empty", "seq_unit", "seq_concat", "flt_of_int", "same", "hash_str", "tbl",
+    "seq_len", "seq_nth", "seq_empty", "seq_unit", "seq_concat", "flt_of_int", "same", "hash_str", "tbl", "canon_in", "vs_has", "vs_n", "vs_in", "vs_wf", "vs_first", "vs_rep", "ck", "qm_has", "qm_get", "qm_key", "pair", "hash_of", "vs_add", "vs_empty", "seq_has", "attr_set", "canon_set", "rkey", "rec_keys", "set_has", "os_has", "os_n", "os_rep", "entry",
 }
 
 
@@ -387,7 +387,7 @@ class Exec(Sem):
             if self.feasible(st, rest):
                 ctl.exc(st.assume(rest).step("aX"), ExcVal("AttributeError", node=node))
             return None
-        if ty.kind in ("map", "set", "seq", "str", "DT", "Flt", "int", "bool", "none"):
+        if ty.kind in ("map", "set", "seq", "str", "DT", "Flt", "int", "bool", "none", "vset", "qmap", "oset"):
             return k(st, PyV("valmethod", attr, o))
         raise Unsupported("attribute %s of %r" % (attr, ty), node)
 
@@ -415,6 +415,22 @@ class Exec(Sem):
         distinct = {repr(v) for v in vals.values()}
         if len(distinct) == 1:
             return self.const(next(iter(vals.values())))
+        consts = {n: self.const(v) for n, v in vals.items()}
+        if all(isinstance(c, SV) for c in consts.values()):
+            tys = {c.ty for c in consts.values() if c.ty != T.NONE}
+            if len(tys) == 1:
+                ty = next(iter(tys))
+                if any(c.ty == T.NONE for c in consts.values()):
+                    ty = T.Opt(ty)
+                items = sorted(consts.items())
+                fn = "cattr_%s_%s" % (cls, attr.strip("_"))
+                if fn not in self.cx.funs_known:
+                    self.cx.funs_known.add(fn)
+                    t = self.coerce(items[-1][1], ty).t
+                    for n, c in reversed(items[:-1]):
+                        t = ITE("(= cid %d)" % self.cx.class_ids[n], self.coerce(c, ty).t, t)
+                    self.cx.funs.append("(define-fun %s ((cid Int)) %s %s)" % (fn, self.cx.sorts.sort(ty), t))
+                return SV("(%s (clsof %s))" % (fn, o.t), ty)
         return PyV("dynattr", (o, attr, vals))
 
     # ---------------------------------------------------------------- operators
@@ -508,6 +524,18 @@ class Exec(Sem):
         return self.ev_list([e.left, e.comparators[0]], st, got, ctl)
 
     def eq_via_contract(self, op, a, b, st, k, ctl, node):
+        """== / != on objects whose class defines __eq__/__ne__: through the method (its contract)"""
+        if isinstance(a, SV) and a.ty.kind == "ref":
+            ci = self.repo.classes.get(a.ty.args[0])
+            if ci is None:
+                return NotImplemented
+            meth = "__eq__" if isinstance(op, ast.Eq) else "__ne__"
+            fi = ci.lookup(meth)
+            if fi is not None:
+                return self.call_func(fi, [a, b], {}, st, k, ctl, node)
+            if meth == "__ne__" and ci.lookup("__eq__") is not None:
+                fe = ci.lookup("__eq__")
+                return self.call_func(fe, [a, b], {}, st, lambda s, v: k(s, SV(NOT(self.truthy(v, s)), T.BOOL)), ctl, node)
         return NotImplemented
 
     def compare(self, op, a, b, st, node):
@@ -580,8 +608,10 @@ class Exec(Sem):
             if x.ty != T.STR:
                 raise Unsupported("`in` str with non-str", node)
             return "(str.contains %s %s)" % (cont.t, x.t)
-        if k == "map":
+        if k in ("map", "qmap"):
             return self.map_has(cont, x)
+        if k == "vset":
+            return self.vset_in(cont, x)
         if k == "set":
             et = cont.ty.args[0]
             return "(select %s %s)" % (cont.t, self.key_term(x, et))
@@ -664,7 +694,7 @@ class Exec(Sem):
                                {"kind": "safety", "expr": ast.unparse(node)})
                 st = st.assume(NOT(S.is_none(inner, o.t)))
             return self.subscript(SV(S.the(inner, o.t), inner), i, st, k, ctl, node)
-        if ty.kind == "map":
+        if ty.kind in ("map", "qmap"):
             return self.map_subscript(o, i, st, k, ctl, node)
         if ty.kind == "ref":
             sc = self.schema_for(ty.args[0])
@@ -695,7 +725,7 @@ class Exec(Sem):
 
     def map_subscript(self, m, i, st, k, ctl, node):
         line = getattr(node, "lineno", "?")
-        kk, vv = m.ty.args
+        vv = m.ty.args[-1]
         if not st.spec and not T.total_map_value(vv):
             has = self.map_has(m, i)
             if self.catches(ctl, "KeyError"):
@@ -726,7 +756,7 @@ class Exec(Sem):
 
         if (isinstance(e.func, ast.Attribute) and e.func.attr in MUTATORS and not st.spec):
             def got_recv(s, o):
-                if isinstance(o, SV) and o.ty.kind in ("map", "set", "seq"):
+                if isinstance(o, SV) and o.ty.kind in ("map", "set", "seq", "vset", "qmap", "oset"):
                     return self.ev_list(list(e.args), s,
                                         lambda s2, vs: self.bi.mutate(o, e.func.attr, vs, s2, e.func.value, k, ctl, e), ctl)
                 if isinstance(o, SV) and o.ty.kind == "ref":
@@ -1064,7 +1094,7 @@ class Exec(Sem):
             if sc is not None and sc.dict_of is not None:
                 m = self.dict_self(o, st)
                 return k(self.dict_self_write(o, self.map_put(m, i, v), st))
-        if isinstance(o, SV) and o.ty.kind == "map":
+        if isinstance(o, SV) and o.ty.kind in ("map", "qmap"):
             newm = self.map_put(o, i, v)
             return self.write_back(target.value, newm, st, k, ctl)
         raise Unsupported("subscript store on %r" % (o,), target)
